@@ -38,8 +38,8 @@ type params struct {
 }
 
 func init() {
-	report.Register("C08", report.Check{Level: "model_checking", QuickBudget: 150 * time.Second, ThoroughBudget: 40 * time.Minute, Run: runC08})
-	report.Register("C16", report.Check{Level: "model_checking", QuickBudget: 150 * time.Second, ThoroughBudget: 40 * time.Minute, Run: runC16})
+	report.Register("C08", report.Check{Level: "model_checking", QuickBudget: 240 * time.Second, ThoroughBudget: 25 * time.Minute, Run: runC08})
+	report.Register("C16", report.Check{Level: "model_checking", QuickBudget: 240 * time.Second, ThoroughBudget: 25 * time.Minute, Run: runC16})
 	explore.Register("subhist", func(p string) explore.Harness {
 		var pr params
 		json.Unmarshal([]byte(p), &pr)
